@@ -15,18 +15,19 @@ import (
 // one process per value), which also binds the init-time expressions.
 
 type c05Case struct {
-	Kind   string `json:"kind"` // call | clean
-	CI     bool   `json:"ci"`
-	Env    string `json:"env"`           // UPDATE_SNAPS of this process
-	Opt    string `json:"opt,omitempty"` // Update option: "" | true | false
-	API    string `json:"api,omitempty"`
-	Slot   string `json:"slot,omitempty"`  // missing | equal | different | relaid
-	Sort   bool   `json:"sort,omitempty"`  // Clean: CleanOpts.Sort
-	Stale  string `json:"stale,omitempty"` // Clean: none | entry | file | both
-	Sorted bool   `json:"sorted,omitempty"`
-	Color  bool   `json:"color,omitempty"`
-	Two    bool   `json:"two,omitempty"`   // call cells: an unrelated entry precedes the slot
-	Empty  bool   `json:"empty,omitempty"` // call cells: the stored value is the empty text
+	Kind      string `json:"kind"` // call | clean
+	CI        bool   `json:"ci"`
+	Env       string `json:"env"`           // UPDATE_SNAPS of this process
+	Opt       string `json:"opt,omitempty"` // Update option: "" | true | false
+	API       string `json:"api,omitempty"`
+	Slot      string `json:"slot,omitempty"`  // missing | equal | different | relaid
+	Sort      bool   `json:"sort,omitempty"`  // Clean: CleanOpts.Sort
+	Stale     string `json:"stale,omitempty"` // Clean: none | entry | file | both
+	Sorted    bool   `json:"sorted,omitempty"`
+	Color     bool   `json:"color,omitempty"`
+	Two       bool   `json:"two,omitempty"`       // call cells: an unrelated entry precedes the slot
+	Empty     bool   `json:"empty,omitempty"`     // call cells: the stored value is the empty text
+	AfterFail bool   `json:"afterfail,omitempty"` // call cells: the same test made two failing calls (invalid JSON, mismatch) into another file first
 }
 
 func c05Env() string { return os.Getenv("UPDATE_SNAPS") }
@@ -47,6 +48,11 @@ func c05Gen(c *vfCtx, emit func(c05Case)) {
 						// a stored value that is the empty text is still a stored value
 						emit(c05Case{Kind: "call", CI: ci, Env: env, Opt: opt, API: api, Slot: slot, Empty: true})
 					}
+					if !c.thorough() && (api == "snap" || api == "json" || api == "yaml") {
+						emit(c05Case{Kind: "call", CI: ci, Env: env, Opt: opt, API: api, Slot: slot, Two: true})
+					}
+					// the same cell after an earlier call of the SAME test has failed (into another file): permissions do not depend on the test's history
+					emit(c05Case{Kind: "call", CI: ci, Env: env, Opt: opt, API: api, Slot: slot, AfterFail: true})
 					if c.thorough() {
 						emit(c05Case{Kind: "call", CI: ci, Env: env, Opt: opt, API: api, Slot: slot, Two: true, Color: true})
 						emit(c05Case{Kind: "call", CI: ci, Env: env, Opt: opt, API: api, Slot: slot, Two: true})
@@ -109,7 +115,8 @@ func c05Run(c *vfCtx, cs c05Case) {
 	vfResetState(false, "", true)
 	if cs.Two && !cl.standalone() {
 		t := &vfT{name: "TestZ"}
-		vfCall{API: "snap", Val: "unrelated\n---\nentry"}.do(t, dir)
+		// an unrelated entry whose VALUE contains the addressed slot's header as a line (and a terminator look-alike)
+		vfCall{API: "snap", Val: "unrelated\n---\n[TestA - 1]\nentry"}.do(t, dir)
 		t.end()
 	}
 	if cs.Slot != "missing" {
@@ -141,12 +148,28 @@ func c05Run(c *vfCtx, cs c05Case) {
 			os.WriteFile(filepath.Join(dir, "f.snap"), vfRender(es), 0o644)
 		}
 	}
+	if cs.AfterFail {
+		tg := &vfT{name: "TestA"}
+		vfCall{API: "snap", Val: "g1", File: "g"}.do(tg, dir)
+		vfCall{API: "snap", Val: "g2", File: "g"}.do(tg, dir)
+		tg.end()
+	}
 	vfPlantSentinel(dir)
 	before := vfSnapDir(dir)
 	// the cell
 	vfResetState(cs.CI, cs.Env, !cs.Color)
 	m := vfNewModel(cs.CI, cs.Env)
 	t := &vfT{name: "TestA"}
+	if cs.AfterFail {
+		// (the other file g.snap was prepared below with a value these calls do not match)
+		vfCall{API: "json", Val: `{"a":`, File: "g"}.do(t, dir)
+		vfCall{API: "snap", Val: "does not match", File: "g", Upd: "false"}.do(t, dir)
+		if len(t.errs) != 2 {
+			c.harnessErr("C05 afterfail: the two preparatory calls did not both fail: %v", t.errs)
+			return
+		}
+		before = vfSnapDir(dir)
+	}
 	mk := t.mark()
 	ops := vfLogged(func() { cl.do(t, dir) })
 	t.end()
